@@ -42,11 +42,11 @@ func propTable() map[string]PropSpec {
 	}
 	t["C04"] = PropSpec{
 		ID: "C04", Pkg: coordPkg, NativeDir: "coordinator",
-		Quick:    append([]HarnessRun{H("VTransfer", 4), H("VRelief", 6, 2, 1, 0), H("VRelief", 4, 2, 2, 1), H("VRelief", 4, 2, 2, 3), H("VAssign", 6, 2, 2), H("VScaleDown", 6, 2, 2, 0), H("VCycle", 12, 1, 1, 0)}, lemmas...),
+		Quick:    append([]HarnessRun{H("VTransfer", 4), H("VRelief", 6, 2, 1, 0), H("VRelief", 4, 2, 2, 1), H("VRelief", 4, 2, 2, 3), H("VAssign", 6, 2, 2), H("VScaleDown", 6, 2, 2, 0), H("VScaleDown", 4, 3, 1, 0), H("VCycle", 12, 1, 1, 0)}, lemmas...),
 		Thorough: append([]HarnessRun{H("VRelief", 6, 2, 2, 2), H("VAssign", 6, 3, 2)}, lemmas...),
 		Required: []string{"relief.placed", "assign.placed", "scaledown.placed", "c04.placed", "c04.scalecall"},
 		Prefixes: []string{"C04."},
-		Bounds:   "one lemma per placement site (head relief at K=1, process relief at K=2 without a head limit and - with both targets on one shard - under an unreached head limit that the receiving shard must respect, first assignment, scale-down transfer) with S<=2, K<=2; whole cycles at (1,1); thorough adds first assignment at (3,2) and process relief at (2,2) under an unreached head limit (the receiving shard's head limit must be respected)",
+		Bounds:   "one lemma per placement site (head relief at K=1, process relief at K=2 without a head limit and - with both targets on one shard - under an unreached head limit that the receiving shard must respect, first assignment, scale-down transfer - the latter also at (3,1), where two front shards differ in room) with S<=2, K<=2; whole cycles at (1,1); thorough adds first assignment at (3,2) and process relief at (2,2) under an unreached head limit (the receiving shard's head limit must be respected)",
 		Assume:   wfAssumptions, Outside: cycleOutside,
 	}
 	t["C05"] = PropSpec{
